@@ -1,0 +1,14 @@
+//go:build verif
+
+package experiment
+
+import (
+	experimentsv1beta1 "github.com/kubeflow/katib/pkg/apis/controller/experiments/v1beta1"
+	suggestionsv1beta1 "github.com/kubeflow/katib/pkg/apis/controller/suggestions/v1beta1"
+	trialsv1beta1 "github.com/kubeflow/katib/pkg/apis/controller/trials/v1beta1"
+)
+
+// GetTrialInstanceForVerif exposes the unexported getTrialInstance to the verification harness (no behaviour change).
+func (r *ReconcileExperiment) GetTrialInstanceForVerif(e *experimentsv1beta1.Experiment, a *suggestionsv1beta1.TrialAssignment) (*trialsv1beta1.Trial, error) {
+	return r.getTrialInstance(e, a)
+}
